@@ -2025,6 +2025,92 @@ def c06_join_keys_oriented(env, ob):
     return result(ob, "discharged", **kw)
 
 
+@obligation(id="C05.outer_joins_keep_unmatched_right_rows", also="C06", funcs="MergeJoin::next,NestedLoopJoin::next",
+            bounds="every path of ONE round of the loop of MergeJoin::next, and of one call of NestedLoopJoin::next (loops "
+                   "unrolled once), from ANY operator state; child operators, key extraction and comparison uninterpreted",
+            native="c05_outer_joins_keep_unmatched_rows")
+def c05_outer_joins(env, ob):
+    """RIGHT and FULL joins keep the right rows that find no partner, padded with NULLs, whichever algorithm runs (the
+    cost model picks the merge join for pure equi conditions, the nested loop join otherwise).  (1) Merge join: a right
+    row may only be passed over (`advance_right` outside the buffering of equal keys) after it has been emitted through
+    `nulls_with_right` when the join type is RIGHT or FULL.  (2) Nested loop join: the left width handed to
+    `nulls_with_right` is not the field that is only learned from the first left row while that field can still be 0."""
+    jt = env.enum_variants("sql/parser/ast.rs", "JoinType")
+    failed, inc, kw = set(), [], {"paths": 0, "queries": 0, "events": {}}
+    # (1) merge join
+    # ONE round of the operator's loop from an arbitrary state (loop_bound=0: a path ends at the back edge): the helper
+    # calls take `&mut self` and are uninterpreted, so after them nothing is known about the operator's fields any more
+    # (advance_left / advance_right are inlined from MIR: they touch the cursor fields only, not the join type)
+    JOIN = "runtime/ops/join.rs"
+    inl = {r"MergeJoin::<.*>::advance_left$": (JOIN, "advance_left", r"&mut MergeJoin<Left, Right>"),
+           r"MergeJoin::<.*>::advance_right$": (JOIN, "advance_right", r"&mut MergeJoin<Left, Right>")}
+    ctx, f, args, res = explore(env, JOIN, "next", sig=r"&mut MergeJoin<Left, Right>", loop_bound=0, inline=inl)
+    fields = env.struct_fields("runtime/ops/join.rs", "MergeJoin")
+    me = args[0].cell.val
+    jtd = me.field_cell(str(fields.index("join_type")), "sql::parser::ast::JoinType").val
+    if not isinstance(jtd, Agg):
+        return result(ob, "inconclusive", reason="join_type of MergeJoin not an enum in the dump")
+    d = jtd.get_disc().term
+    outer = f"(or (= {d} {bvconst(jt['Right'], 64)}) (= {d} {bvconst(jt['Full'], 64)}))"
+    qs, n_adv = [], 0
+    for path, rv in res:
+        if path.panics:
+            continue
+        emitted = False
+        for e in path.events:
+            if e["callee"].endswith("nulls_with_right"):
+                emitted = True
+            elif e.get("fn") == "advance_right" and re.search(r"^<Right as (?:runtime::)?Executor>::next$", e["callee"]):
+                n_adv += 1
+                if not emitted:
+                    qs.append(conj(e.get("pc_prefix", path.pc) + [outer]))
+    kw["paths"] += len(res)
+    kw["events"]["advance_right_in_merge_join"] = n_adv
+    if not n_adv:
+        inc.append("vacuity: MergeJoin::next never passes over a right row")
+    elif qs:
+        chk = env.check(ctx, [disj(sorted(set(qs)))])
+        kw["queries"] += 1
+        if chk[0]["verdict"] == "sat":
+            failed.add("right_row_passed_over_without_being_emitted@merge_join")
+        elif chk[0]["verdict"] != "unsat":
+            inc.append("solver: " + chk[0]["verdict"])
+    # (2) nested loop join
+    ctx2, f2, args2, res2 = explore(env, "runtime/ops/join.rs", "next", sig=r"&mut NestedLoopJoin<Left, Right>", loop_bound=1)
+    nf = env.struct_fields("runtime/ops/join.rs", "NestedLoopJoin")
+    lc0 = args2[0].cell.val.field_cell(str(nf.index("left_cols")), "usize").val
+    q2, n_pad = [], 0
+    for path, rv in res2:
+        if path.panics:
+            continue
+        read_left = False
+        for e in path.events:
+            if re.search(r"^<Left as (?:runtime::)?Executor>::next$", e["callee"]):
+                read_left = True
+            if e["callee"].endswith("nulls_with_right"):
+                n_pad += 1
+                w = e["args"][1]
+                if isinstance(w, Leaf) and isinstance(lc0, Leaf) and w.term == lc0.term and not read_left:
+                    q2.append(conj(e.get("pc_prefix", path.pc) + [f"(= {lc0.term} {bvconst(0, 64)})"]))
+    kw["paths"] += len(res2)
+    kw["events"]["nulls_with_right_in_nested_loop_join"] = n_pad
+    if not n_pad:
+        inc.append("vacuity: NestedLoopJoin::next never pads a right row")
+    elif q2:
+        chk = env.check(ctx2, [disj(sorted(set(q2)))])
+        kw["queries"] += 1
+        if chk[0]["verdict"] == "sat":
+            failed.add("right_row_padded_to_a_left_width_that_was_never_learned@nested_loop_join")
+        elif chk[0]["verdict"] != "unsat":
+            inc.append("solver: " + chk[0]["verdict"])
+    kw["queries"] = max(kw["queries"], 1)
+    if failed:
+        return result(ob, "violated", failed=sorted(failed), cex={"what": "a RIGHT / FULL join loses or mis-shapes right rows without a partner"}, **kw)
+    if inc:
+        return result(ob, "inconclusive", reason="; ".join(inc)[:300], **kw)
+    return result(ob, "discharged", **kw)
+
+
 @obligation(id="C06.index_scan_is_exhaustive", funcs="IndexScan::next",
             bounds="every path of IndexScan::next through <= 2 index entries; tree / predicate calls uninterpreted",
             native="c06_composite_index_upper_bound")
